@@ -5,6 +5,9 @@ package checks
 import (
 	"bytes"
 	"fmt"
+	bankpc "github.com/haqq-network/haqq/precompiles/bank"
+	distpc "github.com/haqq-network/haqq/precompiles/distribution"
+	stakingpc "github.com/haqq-network/haqq/precompiles/staking"
 	"math/big"
 	"sort"
 	"strings"
@@ -95,6 +98,15 @@ func TestC05(t *testing.T) {
 			}
 			c05LateLoad(r, id, endKind)
 		}
+	}
+	// (b') the same against go-ethereum, with read-only precompile calls sprinkled over the frames
+	for g := 0; g < r.Cases(48, 2400); g++ {
+		id := fmt.Sprintf("evmq/%d", g)
+		fidx++
+		if !r.Want(id, fidx) {
+			continue
+		}
+		c05Program(r, id)
 	}
 	// (b) EVM-only failing frames (storage, balances, logs, creates, self-destructs) vs go-ethereum
 	np := r.Cases(96, 4800)
@@ -334,8 +346,24 @@ func trunc(l []string, n int) []string {
 func c05Program(r *report.R, id string) {
 	rng := r.Rand(id)
 	genSelfDestruct, genPokes = true, true
-	defer func() { genSelfDestruct, genPokes = false, false }()
+	defer func() { genSelfDestruct, genPokes, genPcQueries = false, false, nil }()
 	n := vn.New(vn.Config{Seed: uint64(r.Seed), NumVals: 1, NumAccounts: 8})
+	withQueries := strings.HasPrefix(id, "evmq/")
+	if withQueries {
+		// read-only precompile calls in between: the post-state must still be what go-ethereum
+		// computes for the same program (there the addresses are empty accounts)
+		pcs := n.App.EvmKeeper.Precompiles(addrDist, addrBank)
+		stABI, _ := stakingpc.LoadABI()
+		mk := func(a abi.ABI, to common.Address, m string, args ...any) {
+			if bz, err := a.Pack(m, args...); err == nil {
+				genPcQueries = append(genPcQueries, pcQuery{to, bz})
+			}
+		}
+		mk(pcs[addrBank].(*bankpc.Precompile).ABI, addrBank, "balances", n.Accounts[0].Eth)
+		mk(pcs[addrDist].(*distpc.Precompile).ABI, addrDist, "delegatorWithdrawAddress", n.Accounts[1].Eth)
+		mk(stABI, addrStaking, "validator", n.Vals[0].ValAddr.String())
+		mk(stABI, addrStaking, "delegation", n.Accounts[2].Eth, n.Vals[0].ValAddr.String())
+	}
 	deployer := n.Accounts[7]
 	nfresh := 0
 	fresh := func() common.Address {
@@ -440,6 +468,16 @@ func c05Program(r *report.R, id string) {
 		}
 		if bad {
 			break
+		}
+		if withQueries {
+			nq := strings.Count(p.shape(), "pcquery")
+			if nq > 0 {
+				r.Count("evm_programs_with_precompile_queries_matched_reference", 1)
+				if failing > 0 {
+					r.Nontriv(fmt.Sprintf("evm+queries|%s|failing-frames%d|queries%d", outcome, bucket(failing), bucket(nq)))
+				}
+			}
+			continue
 		}
 		r.Count("evm_programs_matched_reference", 1)
 		if failing > 0 {
